@@ -915,6 +915,7 @@ func checkSetArithmetic(r *Reporter, p *Prog) {
 			continue
 		}
 		got := map[string]string{}
+		var noThreshold []string
 		ast.Inspect(fd.Body, func(n ast.Node) bool {
 			c, ok := n.(*ast.CallExpr)
 			if !ok || len(c.Args) != 1 {
@@ -930,9 +931,18 @@ func checkSetArithmetic(r *Reporter, p *Prog) {
 			}
 			if cc, ok := ast.Unparen(c.Args[0]).(*ast.CallExpr); ok {
 				got[src] = shortTypeName(exprKey(cc.Fun))
+				// the caller's threshold reaches the collector (without it the collector falls back to 1)
+				if !(cc.Ellipsis.IsValid() && len(cc.Args) > 0 && exprKey(cc.Args[len(cc.Args)-1]) == "threshold") {
+					noThreshold = append(noThreshold, src)
+				}
 			}
 			return true
 		})
+		if len(noThreshold) > 0 && variadicParam(fd, "threshold") {
+			r.Fail("arith/threshold-forwarded", key, p.posStr(fd.Pos()), fmt.Sprintf("the collector for %v is built without the caller's threshold: it counts against the default of 1, so crossings are reported at the wrong count and %s no longer mirrors its sibling", noThreshold, m))
+		} else {
+			r.Pass("arith/threshold-forwarded", key, p.posStr(fd.Pos()), "both collectors receive the caller's threshold")
+		}
 		if got["AddedElements"] == want[0] && got["DeletedElements"] == want[1] {
 			r.Pass("arith/routing", key, p.posStr(fd.Pos()), fmt.Sprintf("added -> %s, deleted -> %s", want[0], want[1]))
 		} else {
@@ -940,6 +950,20 @@ func checkSetArithmetic(r *Reporter, p *Prog) {
 		}
 	}
 	checkCollectorTable(r, p)
+}
+
+// variadicParam: fd has a variadic parameter of that name.
+func variadicParam(fd *ast.FuncDecl, name string) bool {
+	for _, fl := range fd.Type.Params.List {
+		if _, isEll := fl.Type.(*ast.Ellipsis); isEll {
+			for _, nm := range fl.Names {
+				if nm.Name == name {
+					return true
+				}
+			}
+		}
+	}
+	return false
 }
 
 // checkCollectorTable judges the two exported collectors of SetArithmetic end to end, whatever the
